@@ -45,6 +45,38 @@ Proof.
   apply andb_prop in X. destruct X as (X & _). apply Nat.eqb_eq in X. subst. reflexivity.
 Qed.
 
+(** childRefs keeps one entry per name *)
+Lemma rk_set_node n x (s : st) :
+  rkeys s -> (pkeys (gnode s n) -> pkeys x) -> rkeys (set_node pfs n x s).
+Proof. intros K Kx m. rewrite gnode_set_node. destruct ((m =? n) && (n <? nlen s)); auto. Qed.
+
+Lemma rk_notify_delete fuel : forall n (s : st), rkeys s -> rkeys (notify_delete pfs fuel n s).
+Proof.
+  induction fuel as [|f IH]; intros n s K; cbn [notify_delete]; [exact K|].
+  assert (K1 : rkeys (set_node pfs n (pn_with_deleted (get_node pfs s n)) s)) by (apply rk_set_node; auto).
+  revert K1. generalize (set_node pfs n (pn_with_deleted (get_node pfs s n)) s). generalize (pn_nodes (get_node pfs s n)).
+  intros l. induction l as [|a l IHl]; intros s0 K0; cbn [fold_left]; auto.
+Qed.
+
+Lemma rk_rwn_none n nm m : forall held (s : st), rkeys s -> rkeys (snd (rwn_loop pfs n nm None m held s)).
+Proof.
+  induction m as [|r m IH]; intros held s K; cbn [rwn_loop]; [exact K|]. cbv zeta. apply IH.
+  apply rk_set_node; auto. intros Kn. apply pkeys_with_refs; auto. apply (gaset_nodup Nat.eqb Nat.eqb_spec). apply Kn.
+Qed.
+
+Lemma rk_mcd n nm (s : st) : rkeys s -> rkeys (mark_child_deleted pfs pfs_step n nm s).
+Proof.
+  intros K. unfold mark_child_deleted, remove_with_name.
+  set (lp := match alookup Nat.eqb nm (pn_refs (get_node pfs s n)) with
+             | Some m => rwn_loop pfs n nm None m [] s | None => ([], s) end).
+  assert (H1 : fst lp = [] /\ rkeys (snd lp)).
+  { unfold lp. destruct (alookup Nat.eqb nm (pn_refs (get_node pfs s n))); [|auto]. split; [apply held_rwn_none | apply rk_rwn_none; auto]. }
+  destruct lp as [held s1]. cbn [fst snd] in H1. destruct H1 as (-> & K1). cbn [release_all].
+  assert (K2 : rkeys (set_node pfs n (pn_with_nodes (get_node pfs s1 n) (adel Nat.eqb nm (pn_nodes (get_node pfs s1 n)))) s1))
+    by (apply rk_set_node; auto; intros Kn; apply pkeys_with_nodes; auto; apply (gadel_nodup Nat.eqb Nat.eqb_spec); apply Kn).
+  destruct (alookup Nat.eqb nm (pn_nodes (get_node pfs s1 n))); [apply rk_notify_delete|]; exact K2.
+Qed.
+
 (** markChildDeleted, read pointwise *)
 Lemma mcd_spec n nm (s : st) : n < nlen s ->
   let s' := mark_child_deleted pfs pfs_step n nm s in
@@ -218,6 +250,8 @@ Proof.
     repeat split; auto; apply TR; auto.
   - intros r Hr. rewrite RL in Hr. rewrite GR, NL. apply (G_nbound _ _ G); auto.
   - intros r o Hr E. rewrite RL in Hr. rewrite GR in E |- *. eapply (G_xmode _ _ G); eauto.
+  - intros r Hr Ep T'. rewrite RL in Hr. rewrite GR in Ep |- *. apply (G_root _ _ G); auto. apply TR; auto.
+  - apply rk_mcd. intros m. rewrite GN2. apply (G_keys _ _ G).
   - rewrite RL. apply G.
 Qed.
 
